@@ -103,7 +103,7 @@ def check_c14(tier):
     rep.coverage.update({
         "states": len(sols), "transitions": sum(r["calls"] for r in sols), "traces_validated_against_impl": sum(r["validated"] for r in sols),
         "samples": sols[:6] or [{"note": "none"}], "catalogue_size": cat[0]["catalogue"] if cat else 0, "uncovered": sorted(set(unc)),
-        "rule": "state = (catalogue entry of masa_printid, scalar type) initialised in a fresh child process; every evaluator of the pinned capability table P (spec/capabilities.tsv) must still be in D (vtable-derived from the binary under test) and return a finite non-sentinel value at an interior point",
+        "rule": "state = (catalogue entry of masa_printid, scalar type) initialised in a fresh child process; every evaluator of the pinned capability table P (spec/capabilities.tsv) must still be in D (vtable-derived from the binary under test) and return a finite non-sentinel value at an interior point in every registry context and, in the fresh context, at all 4^arity points of the lattice {5/16, 1/2, 1, 3} of its scalar arguments",
         "exhaustive": True,
     })
     rep.assumptions += ["P = capability set and dimensions at the pinned commit (spec/capabilities.tsv, generated from the vtables and reviewed against doxygen)"]
@@ -121,7 +121,7 @@ def check_c15(tier):
     rep.coverage.update({
         "states": sum(r["unprovided_pairs"] for r in sols), "transitions": sum(r["calls"] for r in sols), "traces_validated_against_impl": sum(r["validated"] for r in sols),
         "samples": sols[:5] or [{"note": "none"}], "solutions": len(sols),
-        "rule": "state = (solution, public evaluator overload) pair that the binary under test does NOT provide (vtable slot equal to masa_uninit's); each called in double and long double at %d argument tuples; must return exactly -1.33, print a (S)MASA ERROR line, keep the process alive and leave every parameter bit-identical" % (4 if tier == "thorough" else 2),
+        "rule": "state = (solution, public evaluator overload) pair that the binary under test does NOT provide (vtable slot equal to masa_uninit's); each called in double and long double at %d generic argument tuples in every registry context and, in the fresh context, at all 3^arity sign patterns {0,+,-} of its scalar arguments; must return exactly -1.33, print a (S)MASA ERROR line, keep the process alive and leave every parameter bit-identical" % (4 if tier == "thorough" else 2),
         "exhaustive": True,
     })
     rep.assumptions += ["forwarding rule source_X->eval_q_X, exact_X->eval_exact_X, grad_X->eval_g_X with the exceptions of spec/api_rule.tsv is normative"]
